@@ -6,7 +6,7 @@ from fractions import Fraction
 
 from common import CoqError, coq_eval_bools, cq, dec_val, run_impl
 
-IMPORTS = ("From Coq Require Import List Arith Bool ZArith QArith Qcanon.\nImport ListNotations.\nFrom GV.lib Require Import Semiring BigSum.\nFrom GV.model Require Import Regex.")
+IMPORTS = ("From Coq Require Import List Arith Bool ZArith QArith Qcanon.\nImport ListNotations.\nFrom GV.lib Require Import Semiring BigSum.\nFrom GV.model Require Import Regex RegexLive.")
 CHARSETS = [list("abcAB1."), list("abßsS\n"), list("ab01 _")]
 
 
@@ -76,12 +76,12 @@ def run(ctx):
     ctx.cov["rule"] = ("random regular expressions (literals, classes, negated classes, dot, alternation, * + ? {m,n}, escapes, case-insensitive literals incl. ß) x three character sets: "
                        "the automaton returned by interegular_to_wfsa vs the Coq model of the post-processing run on the same DFA (arc list and weights exactly), weight > 0 vs re.fullmatch on all strings to length 3 over the character set, "
                        "per-state outgoing + final mass = 1; non-trivial = pattern matching at least one tested string")
-    ok, out = ctx.build(["proofs/RegexProofs.vo", "model/Regex.vo"])
+    ok, out = ctx.build(["proofs/RegexProofs.vo", "proofs/RegexLiveProofs.vo", "model/RegexLive.vo"])
     if ok:
         ctx.prove("props/C18.v")
     else:
         ctx.obligation("coq-build(C18)", False, out[-3000:])
-        ok2, _ = ctx.build(["model/Regex.vo"])
+        ok2, _ = ctx.build(["model/RegexLive.vo"])
         if not ok2:
             return
     n = 60 if quick else 600
@@ -98,7 +98,7 @@ def run(ctx):
             strs = strs[:40] + ctx.rng.sample(strs[40:], 80)
         jobs.append({"queries": [{"op": "regex", "pattern": pat, "charset": cs, "strings": strs}]})
         cases.append((pat, cs, strs))
-    fixed = [("(?i:ß)", CHARSETS[1]), ("(?i:s)+ß?", CHARSETS[1]), ("[^a]*", CHARSETS[0]), (".", CHARSETS[1]), ("a{2,3}|b?", CHARSETS[0])]
+    fixed = [("x[^abxy]|y", list("abxy")), ("a[^a]", list("a")), ("a[^ab]*b|b", list("ab")), ("(?i:ß)", CHARSETS[1]), ("(?i:s)+ß?", CHARSETS[1]), ("[^a]*", CHARSETS[0]), (".", CHARSETS[1]), ("a{2,3}|b?", CHARSETS[0])]
     for pat, cs in fixed:
         strs = ["".join(x) for L in range(0, 4) for x in itertools.product(cs, repeat=L)][:150]
         jobs.append({"queries": [{"op": "regex", "pattern": pat, "charset": cs, "strings": strs}]})
@@ -130,14 +130,20 @@ def run(ctx):
             mass[s] = mass.get(s, 0.0) + float(dec_val(w))
         for i, a, j, w in o["wfsa"]["arcs"]:
             mass[i] = mass.get(i, 0.0) + float(dec_val(w))
+            mass.setdefault(j, 0.0)   # a state that is only the target of arcs counts too ("at every state")
+        for s, w in o["wfsa"]["init"]:
+            mass.setdefault(s, 0.0)
+        empty_language = not o["wfsa"]["arcs"] and not any(float(dec_val(w)) > 0 for s_, w in o["wfsa"]["final"] if s_ in {i_ for i_, _ in o["wfsa"]["init"]})
         for s, mval in mass.items():
+            if empty_language and s in {i_ for i_, _ in o["wfsa"]["init"]}:
+                continue  # no string over the character set matches: the lone initial state cannot be normalised
             if abs(mval - 1.0) > 1e-9:
                 viol(ctx, "regex:mass", f"pattern {pat!r}: state {s} has outgoing + final mass {mval}", {"kind": "regex", "what": "mass", "pattern": pat, "charset": cs, "state": s, "observed": mval, "expected": 1.0})
         for i, a, j, w in o["wfsa"]["arcs"]:
             if a != "" and len(a) != 1:
                 viol(ctx, "regex:multichar-arc", f"pattern {pat!r}: arc labelled {a!r} (not a single character)", {"kind": "regex", "what": "multichar", "pattern": pat, "charset": cs, "label": a})
         # (3) correspondence with the Coq model on the same DFA
-        D = coq_dfa(o["fsm"])
+        D = "(with_live " + nl([ord(c) for c in cs]) + " " + coq_dfa(o["fsm"]) + ")"
         chars = nl([ord(c) for c in cs])
         arcs = sorted((int(i), ord(a), int(j), Fraction(float(dec_val(w))).limit_denominator(10 ** 6)) for i, a, j, w in o["wfsa"]["arcs"] if len(a) == 1)
         fins = sorted((int(s), Fraction(float(dec_val(w))).limit_denominator(10 ** 6)) for s, w in o["wfsa"]["final"])
